@@ -192,6 +192,15 @@ reg(Spec("C08", "Props/C08.v", harness="workers", overlay={},
     modelled=WORKERS_MODELLED))
 
 AUDITPROC_OVERLAY = {"processors/auditd/verif_c15_export.go": "harness/overlay/auditd_c15_verif.go"}
+# C16: real-time runs of the real Auditd.Read (second half inside / well outside the window, with and without
+# unrelated traffic): ~135 s, thorough tier, and in any tier when an obligation broke and no failing input was found
+_RT = ("auditproc", AUDITPROC_OVERLAY, ["-mode", "realtime"], False)
+SPECS["C16"].thorough_extra = [_RT]
+SPECS["C16"].search_extra = [_RT]
+SPECS["C16"].assumptions = SPECS["C16"].assumptions + [
+    "real-time stage (thorough tier; also run as a search when the generated ticker/cut-off obligations break): eight concurrent "
+    "processors, second half 30-50 s (must correlate) or 130 s (must have been discarded) after the first, silence or unrelated traffic every 7-20 s"]
+
 reg(Spec("C15", "Props/C15.v", harness="auditproc", overlay=AUDITPROC_OVERLAY,
     args_quick=["-n", "150"], args_thorough=["-n", "2000"], args_search=["-n", "1200"],
     assumptions=[
